@@ -4,7 +4,7 @@
    (`c_fuel_h`) is proved sufficient: every result is `Ok _`. *)
 From Coq Require Import List NArith ZArith Bool Lia.
 From Delb.Base Require Import PyStr.
-From Delb.Tree Require Import ATree ITree ANav ANavFacts.
+From Delb.Tree Require Import ATree ITree ANav ANavFacts ANavOrderFacts.
 From Delb.Conc Require Import CTree CNav CHeapFacts CWalkFacts.
 Import ListNotations.
 
@@ -154,6 +154,67 @@ Section Concrete.
       rewrite (a_parent_of_kid t Tnd s n Hs Hk). discriminate.
   Qed.
 
+  (* ---- kinds and text content ---- *)
+  Lemma abs_not_text inh' e : is_text_tree (abs_el inh' e) = false.
+  Proof. destruct e as [i k own data kids]. cbn [abs_el]. unfold is_text_tree. cbn [ipayload]. destruct k; reflexivity. Qed.
+  Lemma P_is_text n : In n (ids t) -> h_is_text h n = a_is_text t n.
+  Proof.
+    intros Hn. destruct (node_kind_content c inh Hok Hnd n Hn) as [[e [inh' [He [<- Hs]]]]|[tb [o [Ho [_ [Hs <-]]]]]].
+    - destruct (subel_obj c Hnd e He) as [up [nx [pv [tl Hobj]]]]. unfold h_is_text. rewrite Hobj.
+      unfold a_is_text. rewrite <- (abs_iid inh' e), (a_sub_in t Tnd _ Hs), abs_not_text. reflexivity.
+    - unfold h_is_text. rewrite Ho. unfold a_is_text. change (t_id tb) with (iid (atext tb)). rewrite (a_sub_in t Tnd _ Hs). reflexivity.
+  Qed.
+  Lemma P_content n : In n (ids t) -> h_is_text h n = true -> h_content h n = a_text t n.
+  Proof.
+    intros Hn Htx. destruct (node_kind_content c inh Hok Hnd n Hn) as [[e [inh' [He [<- Hs]]]]|[tb [o [Ho [Hc [Hs <-]]]]]].
+    - destruct (subel_obj c Hnd e He) as [up [nx [pv [tl Hobj]]]]. unfold h_is_text in Htx. rewrite Hobj in Htx. discriminate.
+    - unfold h_content. rewrite Ho, Hc. unfold a_text. change (t_id tb) with (iid (atext tb)). rewrite (a_sub_in t Tnd _ Hs). reflexivity.
+  Qed.
+
+  (* ---- document order: following (under the guard), preceding, partition ---- *)
+  Lemma fu_ge : length (ids t) <= fu.
+  Proof. pose proof fu_walk. lia. Qed.
+  Theorem c_following_abs D F n : up_closed_b D t = true -> In n (ids t) ->
+    c_iterate_following c D F n = Ok (filter (fand D F) (a_following t n)).
+  Proof. intros Hg Hn. unfold c_iterate_following, h_iterate_following. walk following_spec. exact fu_ge. Qed.
+  Theorem c_preceding_abs D F n : In n (ids t) -> c_iterate_preceding c D F n = Ok (filter F (a_preceding t n)).
+  Proof. intros Hn. unfold c_iterate_preceding, h_iterate_preceding. walk preceding_spec. pose proof fu_walk. lia. Qed.
+  Lemma up_closed_ftrue : up_closed_b ftrue t = true.
+  Proof. unfold up_closed_b. apply forallb_forall. intros s _. reflexivity. Qed.
+  (* what the two walks return around a node is the whole tree, in document order *)
+  Theorem c_partition n : In n (ids t) ->
+    exists p f, c_iterate_preceding c ftrue ftrue n = Ok p /\ c_iterate_following c ftrue ftrue n = Ok f
+                /\ rev p ++ n :: f = cel_ids c.
+  Proof.
+    intros Hn. exists (a_preceding t n), (a_following t n).
+    rewrite (c_preceding_abs ftrue ftrue n Hn), (c_following_abs ftrue ftrue n up_closed_ftrue Hn), filter_ftrue.
+    rewrite (filter_ext (fand ftrue ftrue) ftrue) by reflexivity. rewrite filter_ftrue.
+    split; [reflexivity|split; [reflexivity|]]. rewrite (partition t n Hn). apply abs_ids. exact Hok.
+  Qed.
+
+  (* ---- full_text: the content of the visible text descendants, concatenated in document order ---- *)
+  Theorem c_full_text_abs D n : In n (ids t) ->
+    c_full_text c D n = Ok (if a_is_text t n then a_text t n else a_text_concat t (filter D (a_descendants t n))).
+  Proof.
+    intros Hn. unfold c_full_text, h_full_text. walk full_text_spec; try exact P_is_text; try exact P_content.
+    intros Htag. unfold h_is_tag in Htag. unfold h_is_text. destruct (lookup h n) as [[o|o]|]; [reflexivity|discriminate|discriminate].
+  Qed.
+  Corollary c_full_text_unfiltered n : In n (ids t) -> c_full_text c ftrue n = Ok (a_full_text t n).
+  Proof. intros Hn. rewrite (c_full_text_abs ftrue n Hn), filter_ftrue. reflexivity. Qed.
+
+  (* ---- last_descendant ---- *)
+  Theorem c_last_descendant_abs D n : up_closed_b D t = true -> In n (ids t) ->
+    c_last_descendant c D n = Ok (last_error (filter D (a_descendants t n))).
+  Proof. intros Hg Hn. unfold c_last_descendant, h_last_descendant. walk last_descendant_spec. exact (fun _ => []). Qed.
+  Corollary c_last_descendant_unfiltered n : In n (ids t) -> c_last_descendant c ftrue n = Ok (a_last_descendant t n).
+  Proof. intros Hn. rewrite (c_last_descendant_abs ftrue n up_closed_ftrue Hn), filter_ftrue. reflexivity. Qed.
+
+  (* ---- the contributed traversers enumerate the subtree in their documented orders ---- *)
+  Theorem c_traverse_bf_abs F n : In n (ids t) -> c_traverse_bf c ftrue F n = Ok (filter F (a_bf_ttb t n)).
+  Proof. intros Hn. unfold c_traverse_bf, h_traverse_bf. walk traverse_bf_spec. pose proof fu_walk. lia. Qed.
+  Theorem c_traverse_df_btt_abs n : In n (ids t) -> c_traverse_df_btt c ftrue ftrue n = Ok (a_df_btt t n).
+  Proof. intros Hn. unfold c_traverse_df_btt, h_traverse_df_btt. walk traverse_df_btt_spec. exact fu_ge. Qed.
+
   (* every routine is a function of the one tree `t` *)
   Theorem c_nav_one_tree D F n : In n (ids t) ->
     c_iterate_children c D F n = Ok (filter (fand D F) (a_children t n))
@@ -177,3 +238,24 @@ Section Concrete.
                  c_fetch_preceding_sibling_abs, c_iterate_preceding_siblings_abs, c_descendants_abs, c_traverse_df_ttb_abs.
   Qed.
 End Concrete.
+
+(* the guard of the following-axis theorem cannot be dropped: <r><x>c</x></r> under an ambient filter that accepts
+   only the text node: `first_child` of r is None, so the walk never enters x *)
+Definition refute_tree : cel :=
+  CEl 0%N (KTag [] [114%N] []) None no_chain
+      [(CEl 1%N (KTag [] [120%N] []) None {| ch_head := Some 2%N; ch_slot := Some [99%N]; ch_app := [] |} [], no_chain)].
+Lemma following_unguarded_refuted : exists c D n,
+  el_ok c = true /\ nodupb (cel_ids c) = true /\ In n (ids (abs_el [] c)) /\
+  c_iterate_following c D ftrue n <> Ok (filter (fand D ftrue) (a_following (abs_el [] c) n)).
+Proof.
+  exists refute_tree, (fun i => N.eqb i 2), 0%N. split; [reflexivity|]. split; [reflexivity|]. split; [left; reflexivity|].
+  vm_compute. discriminate.
+Qed.
+
+(* depth of a parentless comment / processing instruction: `_ChildLessNode.depth` is `parent.depth + 1` with parent None *)
+Lemma depth_parentless_refuted : exists c n,
+  el_ok c = true /\ nodupb (cel_ids c) = true /\ In n (ids (abs_el [] c)) /\ a_depth (abs_el [] c) n = 0%nat /\
+  c_depth c ftrue n = Crash AttributeError.
+Proof.
+  exists (CEl 0%N (KComment []) None no_chain []), 0%N. repeat split; try reflexivity. left. reflexivity.
+Qed.
